@@ -49,6 +49,7 @@ const kinds = "EeSsOoCcPpQqYN" // BeforeExecute AfterExecute BeforeStep AfterSte
 
 type tracer struct {
 	events   []event
+	kept     []*interpreter.State // the snapshots themselves, looked at again after the execution (recording tracer only)
 	scribble bool
 	errSeen  error
 	pcBad    string // first snapshot whose program counter names no instruction of its own Scripts
@@ -86,6 +87,7 @@ func (t *tracer) on(kind byte, s *interpreter.State) {
 		}
 	}
 	if !t.scribble {
+		t.kept = append(t.kept, s)
 		return
 	}
 	// overwrite, truncate and append to every stack handed over
@@ -357,6 +359,15 @@ func check(ctx *pbt.Ctx, c Case) error {
 	}
 	if rec.seq() != ddSeq.String() {
 		return fmt.Errorf("debug.NewDebugger reported a different callback sequence: %q vs %q; %s", ddSeq.String(), rec.seq(), id)
+	}
+	// (ii-b) a snapshot is the callback's own: one that is kept must still read, after the
+	// execution, what it read when it was handed over (later snapshots may not share its storage)
+	for i, st := range rec.kept {
+		e := rec.events[i]
+		if !eqStacks(e.stack, st.DataStack) || !eqStacks(e.alt, st.AltStack) || !eqStacks(e.els, st.ElseStack) || fmt.Sprint(e.cond) != fmt.Sprint(st.CondStack) || e.sidx != st.ScriptIdx || e.oidx != st.OpcodeIdx {
+			return fmt.Errorf("event %d (%c): the snapshot kept by the callback reads differently after the execution: stack %x -> %x, alt %x -> %x, cond %v -> %v, else %x -> %x, pc %d:%d -> %d:%d; %s",
+				i, e.kind, e.stack, st.DataStack, e.alt, st.AltStack, e.cond, st.CondStack, e.els, st.ElseStack, e.sidx, e.oidx, st.ScriptIdx, st.OpcodeIdx, id)
+		}
 	}
 	if rec.pcBad != "" {
 		return fmt.Errorf("snapshot names an instruction it does not contain: %s; %s", rec.pcBad, id)
